@@ -11,7 +11,7 @@
    function as it stood (finding F16).  Exact rationals; binary64 rounding and the
    convergence of the eigen-iteration are explored by the harness, not proved. *)
 From FrameModel Require Import Num.QcTac Geometry.Rect Spectral.Normalize Spectral.NormalizeFacts
-  Spectral.LayoutFacts.
+  Spectral.LayoutFacts Spectral.Iterate Spectral.IterateFacts.
 Open Scope Qc_scope.
 
 (* ---- normalize as it stood ---- *)
@@ -266,3 +266,68 @@ Theorem C14_session_same_nets_areas : forall (thr : Qc) (A B : Type) (radius_of 
       (exists dx dy, s_rects m = map (shift dx dy) (s_rects m0)).
 Proof. exact @session_same. Qed.
 Print Assumptions C14_session_same_nets_areas.
+
+(* ---- the constructor does not alter what it is given ----
+   [spectral_new] is Spectral.__init__ on the INPUT (modules, nets: module indices as listed, a module may be
+   listed twice, and the weight): the object holds the modules and the nets as given, its graph is the clique
+   model of exactly those nets (every listed pin counts in the divisor 2w/k) ... *)
+Theorem C14_constructor_keeps_input : forall (A : Type) (radius_of : smod A -> Qc) (ms : list (smod A))
+    (nets : list net) (s0 : sess A (list net)),
+  spectral_new radius_of ms nets = Ok s0 ->
+  ss_mods s0 = ms /\ ss_nets s0 = nets /\ clique_adj (List.length ms) nets = Ok (ss_adj s0) /\
+  ss_fx s0 = map (fun m => s_fixed m) ms /\
+  exists adj, sess_init radius_of (mkSnet ms adj nets) = Ok s0.
+Proof. exact @spectral_new_input. Qed.
+Print Assumptions C14_constructor_keeps_input.
+
+(* ... and after ANY sequence of calls the nets are still the nets of the input, pin by pin, the graph is still
+   their clique model, and every module keeps payload, flags, rectangle shapes and area *)
+Theorem C14_constructed_session_same : forall (A : Type) (radius_of : smod A -> Qc) (thr : Qc)
+    (ms : list (smod A)) (nets : list net) (calls : list call) (s0 s : sess A (list net)),
+  spectral_new radius_of ms nets = Ok s0 -> sess_run thr calls s0 = Ok s ->
+  ss_nets s = nets /\ clique_adj (List.length ms) nets = Ok (ss_adj s) /\
+  List.length (ss_mods s) = List.length ms /\
+  forall i m0, nth_error ms i = Some m0 ->
+    exists m, nth_error (ss_mods s) i = Some m /\
+      s_other m = s_other m0 /\ s_fixed m = s_fixed m0 /\ s_hard m = s_hard m0 /\ s_terminal m = s_terminal m0 /\
+      map shape_of (s_rects m) = map shape_of (s_rects m0) /\ rects_area (s_rects m) = rects_area (s_rects m0) /\
+      (s_hard m0 && negb (s_fixed m0) = false -> s_rects m = s_rects m0) /\
+      (exists dx dy, s_rects m = map (shift dx dy) (s_rects m0)).
+Proof. exact @constructed_session_same. Qed.
+Print Assumptions C14_constructed_session_same.
+
+(* ---- the CONCRETE iteration of spectral_layout_die (what the theorems above abstract as [produce]) ----
+   orthogonalize against the finished rows, calculate_centroids, fixed entries kept, the rarely taken "all nodes
+   ended in the same place" step (average with the current row), normalize.  For EVERY graph, mass vector,
+   start row and epsilon - in particular for the bipartite graphs and mirrored starts on which the averaging
+   step is taken - a step that returns leaves every movable entry within its span ... *)
+Theorem C14_iteration_bound : forall (thr atol eps : Qc) (adj : adjlist) (deg mass : list Qc) (fx : list bool)
+    (spans : list Qc) (prev : list (list Qc)) (c co c' : list Qc) (i : nat) (y s : Qc),
+  iter_step thr atol eps adj deg mass fx spans prev c = Ok (co, c') ->
+  nth_error c' i = Some y -> nth_error spans i = Some s -> nth_error fx i = Some false -> 0 <= s ->
+  Qcabs y <= s.
+Proof. exact iter_step_bound. Qed.
+Print Assumptions C14_iteration_bound.
+
+(* ... and every fixed entry where it was *)
+Theorem C14_iteration_fixed : forall (thr atol eps : Qc) (adj : adjlist) (deg mass : list Qc) (fx : list bool)
+    (spans : list Qc) (prev : list (list Qc)) (c co c' : list Qc) (i : nat),
+  iter_step thr atol eps adj deg mass fx spans prev c = Ok (co, c') -> nth_error fx i = Some true ->
+  nth_error c' i = nth_error c i.
+Proof. exact iter_step_fixed. Qed.
+Print Assumptions C14_iteration_fixed.
+
+(* one whole dimension with the concrete loop (convergence test, iteration limit [fuel], any random entries
+   [rnd]): fixed nodes at initial - size/2, every movable node whose disc fits within size/2 - radius *)
+Theorem C14_dimension_concrete : forall (thr atol eps : Qc) (adj : adjlist) (deg mass : list Qc) (fx : list bool)
+    (spans : list Qc) (rnd : nat -> nat -> nat -> Qc) (d fuel : nat) (size : Qc) (radius ini : list Qc)
+    (prev : list (list Qc)) (c : list Qc) (k : nat),
+  spans = spans_of size radius ->
+  dim_run_conc thr atol eps adj deg mass fx spans rnd d fuel size ini prev = Ok (c, k) ->
+  List.length fx = List.length ini ->
+  List.length c = List.length ini /\ (k <= fuel)%nat /\
+  (forall j x, nth_error ini j = Some x -> nth_error fx j = Some true -> nth_error c j = Some (x - size * half)) /\
+  (forall j y r, nth_error c j = Some y -> nth_error radius j = Some r -> nth_error fx j = Some false ->
+                 r <= size * half -> Qcabs y + r <= size * half).
+Proof. exact dim_run_conc_post. Qed.
+Print Assumptions C14_dimension_concrete.
